@@ -108,6 +108,7 @@ fn base_schema() -> SchemaDoc {
             },
         ],
         schema_block: None,
+        input_defaults: vec![],
     }
 }
 
@@ -215,6 +216,7 @@ pub fn run(outdir: &Path, tier: &str, seed: u64, shards: usize, _replay: Option<
                 TypeDef::Object { name: "Query".into(), implements: vec![], fields: vec![FieldDef::new("x", GType::named("Int"))] },
             ],
             schema_block: None,
+            input_defaults: vec![],
         };
         let doc = QueryDoc { defs: vec![QDef::Op { kind: OpKind::Query, name: Some("Q".into()), vars: vec![VarDef { name: "a".into(), ty: GType::named("A"), default: None }, VarDef { name: "b".into(), ty: GType::named("B"), default: None }], sel: vec![Sel::field("x")] }] };
         progs.push((format!("input cycle/{}", name), Program { schema, doc, opts: Opts { operation_name: Some("Q".into()), ..Opts::default() }, tags: vec![] }));
